@@ -134,6 +134,8 @@ def worker_main(args):
             if args.budget and time.time() - t0 > args.budget and n >= 1:
                 break
             r = execute(args.property, seed=args.seed, idx=idx, tier=args.tier)
+            if r.get("cfg") is not None:
+                r["cfg"]["hash_class"] = int(os.environ.get("PYTHONHASHSEED", "0") or 0)
             keep_ops = bool(r["violations"] or r["harness"]) or idx < args.keep_samples
             if not keep_ops:
                 r["ops"] = None
